@@ -164,6 +164,7 @@ def cli_binding(res, scratch, prop="C01"):
     fw.write_text(gpath, g.text())
     recs = [r for r, st in conv.records_for(g, L, 2)]
     text = "".join(r.line() + "\n" for r in recs)
+    conv.prime_with_sibling(scratch, L)  # the same local history in the run and in a replay
     out, lines = conv.view_convert(scratch, text, gpath, "stable", "cli")
     rc, cl = conv.cli_view(scratch, text, gpath, "stable")
     res.evaluations += 1
